@@ -3,6 +3,7 @@
   path resolution and the request pipeline of Model/Access.lean.
 -/
 import LtVerif.Model.Access
+import LtVerif.Model.Docroot
 namespace LtVerif.Access
 open LtVerif B
 
@@ -271,12 +272,12 @@ open LtVerif B
 /-! ### the request pipeline -/
 
 /-- what a served file has gone through (everything `serveFrom` checks before it answers 200) -/
-theorem serveFrom_file (s : Server) (t : Target) (e : Env) (addr : Bytes) (cred : Bool) (f : Bytes)
-    (h : (serveFrom s t e addr cred).file = some f) :
+theorem serveFrom_file (s : Server) (t : Target) (e : Env) (user : Option Bytes) (f : Bytes)
+    (h : (serveFrom s t e user).file = some f) :
     ∃ n, n ≤ e.url.length ∧
-      (serveFrom s t e addr cred).status = 200 ∧
-      (serveFrom s t e addr cred).uri = e.url.take (e.url.length - n) ∧
-      (serveFrom s t e addr cred).addr = addr ∧
+      (serveFrom s t e user).status = 200 ∧
+      (serveFrom s t e user).uri = e.url.take (e.url.length - n) ∧
+      (serveFrom s t e user).addr = e.addr.text ∧
       f = relPath s.lc (e.url.take (e.url.length - n)) ∧
       s.fs f = some .file ∧
       (n ≠ 0 → e.url.getD (e.url.length - n) 0 = slash) ∧
@@ -284,7 +285,8 @@ theorem serveFrom_file (s : Server) (t : Target) (e : Env) (addr : Bytes) (cred 
       accessHook s.cfg { e with url := e.url.take (e.url.length - n) } s.lc = true ∧
       staticExclude (listOf (setting (·.exclude) s.cfg { e with url := e.url.take (e.url.length - n) }))
         (s.docroot ++ f) = false ∧
-      ((authHook s.cfg e s.lc).isSome = true → cred = true) := by
+      authPass s.cfg e s.lc user = true ∧
+      ((setting (·.noPathinfo) s.cfg { e with url := e.url.take (e.url.length - n) }).getD false = true → n = 0) := by
   unfold serveFrom at h ⊢
   simp only at h ⊢
   split at h
@@ -304,27 +306,31 @@ theorem serveFrom_file (s : Server) (t : Target) (e : Env) (addr : Bytes) (cred 
         · rename_i hacc2
           split at h
           · simp at h
-          · rename_i hex
-            simp only [Option.some.injEq] at h
-            subst h
-            refine ⟨n, hn, ?_⟩
-            simp only [hacc, hauth, hacc2, hex, Bool.false_eq_true, ↓reduceIte]
-            refine ⟨by first | rfl | trivial, by first | rfl | trivial, by first | rfl | trivial,
-                    hscript, hfs, hsl, ?_, ?_, ?_, ?_⟩
-            · simpa using hacc
-            · simpa using hacc2
-            · simp
-            · intro hs
-              simp only [hs, Bool.true_and, Bool.not_eq_true', Bool.not_eq_false] at hauth
-              simpa using hauth
+          · rename_i hnp
+            split at h
+            · simp at h
+            · rename_i hex
+              simp only [Option.some.injEq] at h
+              subst h
+              refine ⟨n, hn, ?_⟩
+              simp only [hacc, hauth, hacc2, hnp, hex, Bool.false_eq_true, ↓reduceIte]
+              refine ⟨by first | rfl | trivial, by first | rfl | trivial, by first | rfl | trivial,
+                      hscript, hfs, hsl, ?_, ?_, ?_, ?_, ?_⟩
+              · simpa using hacc
+              · simpa using hacc2
+              · simpa using hex
+              · simpa using hauth
+              · intro hp
+                simp only [hp, Bool.true_and, bne_iff_ne, ne_eq, Decidable.not_not] at hnp
+                exact hnp
 
 /-- the decision fields of `serveFrom` do not depend on the spelling of the request-target
     (only PATH_INFO's letter case does) nor on the parse options -/
-theorem serveFrom_indep (s : Server) (o : Opts) (t t' : Target) (e : Env) (addr : Bytes) (cred : Bool) :
-    (serveFrom s t e addr cred).status = (serveFrom { s with opts := o } t' e addr cred).status ∧
-    (serveFrom s t e addr cred).uri = (serveFrom { s with opts := o } t' e addr cred).uri ∧
-    (serveFrom s t e addr cred).addr = (serveFrom { s with opts := o } t' e addr cred).addr ∧
-    (serveFrom s t e addr cred).file = (serveFrom { s with opts := o } t' e addr cred).file := by
+theorem serveFrom_indep (s : Server) (o : Opts) (t t' : Target) (e : Env) (user : Option Bytes) :
+    (serveFrom s t e user).status = (serveFrom { s with opts := o } t' e user).status ∧
+    (serveFrom s t e user).uri = (serveFrom { s with opts := o } t' e user).uri ∧
+    (serveFrom s t e user).addr = (serveFrom { s with opts := o } t' e user).addr ∧
+    (serveFrom s t e user).file = (serveFrom { s with opts := o } t' e user).file := by
   unfold serveFrom
   simp only
   split
@@ -334,7 +340,17 @@ theorem serveFrom_indep (s : Server) (o : Opts) (t t' : Target) (e : Env) (addr 
     · split <;> try simp
       split
       · simp
-      · split <;> simp
+      · split
+        · simp
+        · split <;> simp
+
+/-- the response is `serveFrom` of the once-decoded path and the effective client address
+    (mechanical unfolding of `serve`; kept as a helper, not a property theorem) -/
+theorem serve_eq_serveFrom (bf : Bool) (parse : Bytes → Option SockAddr) (s : Server) (r : Req) (t : Target)
+    (a : Addr) (h : parseTarget s.opts false r.target = .ok t) (ha : effAddr bf parse s r t.path = some a) :
+    serve bf parse s r = serveFrom s t ⟨t.path, r.host, a⟩ r.user := by
+  unfold serve
+  simp [h, ha]
 
 end LtVerif.Access
 
@@ -378,23 +394,9 @@ theorem accessCheck_nc_eq (allow deny : List Bytes) (p : Bytes) :
 
 /-! ### conditional configuration -/
 
-/-- conditions that do not distinguish letter case of the URL: everything except the
-    case-sensitive string comparisons on `$HTTP["url"]`; a regular expression must be
-    case-insensitive -/
-def Scope.caseBlind : Scope → Prop
-  | .url _ _ => False
-  | .urlRe _ m => ∀ u v : Bytes, u.map toLower = v.map toLower → m u = m v
-  | _ => True
-
-/-- conditions that do not look at the URL at all -/
-def Scope.urlFree : Scope → Prop
-  | .url _ _ => False
-  | .urlRe _ _ => False
-  | _ => True
-
-theorem holds_caseBlind (sc : Scope) (hb : sc.caseBlind) (u v h : Bytes) (a : SockAddr)
+theorem holds_caseBlind (sc : Scope) (hb : sc.caseBlind) (u v h : Bytes) (a : Addr)
     (huv : u.map toLower = v.map toLower) : sc.holds ⟨u, h, a⟩ = sc.holds ⟨v, h, a⟩ := by
-  cases sc with
+  induction sc with
   | global => rfl
   | url op s => exact absurd hb (by simp [Scope.caseBlind])
   | urlRe neg m =>
@@ -403,16 +405,30 @@ theorem holds_caseBlind (sc : Scope) (hb : sc.caseBlind) (u v h : Bytes) (a : So
   | host op s => cases op <;> rfl
   | hostRe neg m => rfl
   | ip neg net bits => rfl
+  | ipRe neg m => rfl
+  | both x y ihx ihy =>
+    simp only [Scope.caseBlind] at hb
+    simp [Scope.holds, ihx hb.1, ihy hb.2]
+  | non x ih =>
+    simp only [Scope.caseBlind] at hb
+    simp [Scope.holds, ih hb]
 
-theorem holds_urlFree (sc : Scope) (hb : sc.urlFree) (u v h : Bytes) (a : SockAddr) :
+theorem holds_urlFree (sc : Scope) (hb : sc.urlFree) (u v h : Bytes) (a : Addr) :
     sc.holds ⟨u, h, a⟩ = sc.holds ⟨v, h, a⟩ := by
-  cases sc with
+  induction sc with
   | global => rfl
   | url op s => exact absurd hb (by simp [Scope.urlFree])
   | urlRe neg m => exact absurd hb (by simp [Scope.urlFree])
   | host op s => cases op <;> rfl
   | hostRe neg m => rfl
   | ip neg net bits => rfl
+  | ipRe neg m => rfl
+  | both x y ihx ihy =>
+    simp only [Scope.urlFree] at hb
+    simp [Scope.holds, ihx hb.1, ihy hb.2]
+  | non x ih =>
+    simp only [Scope.urlFree] at hb
+    simp [Scope.holds, ih hb]
 
 theorem setting_congr {α : Type} (sel : Block → Option α) (cfg : List Block) (e e' : Env)
     (h : ∀ b ∈ cfg, (sel b).isSome = true → b.scope.holds e = b.scope.holds e') :
@@ -433,13 +449,17 @@ theorem setting_congr {α : Type} (sel : Block → Option α) (cfg : List Block)
       exact ih (fun b' hb' => h b' (by simp [hb'])) _
 
 /-- under force-lowercase-filenames the mod_access hook looks at the lower-cased URL only,
-    provided no condition of the configuration compares the URL case-sensitively -/
-theorem accessHook_casefold (cfg : List Block) (hcb : ∀ b ∈ cfg, b.scope.caseBlind)
-    (u v h : Bytes) (a : SockAddr) (huv : u.map toLower = v.map toLower) :
+    provided no block that assigns url.access-allow / url.access-deny compares the URL
+    case-sensitively -/
+theorem accessHook_casefold (cfg : List Block)
+    (hcb : ∀ b ∈ cfg, (b.allow.isSome = true ∨ b.deny.isSome = true) → b.scope.caseBlind)
+    (u v h : Bytes) (a : Addr) (huv : u.map toLower = v.map toLower) :
     accessHook cfg ⟨u, h, a⟩ true = accessHook cfg ⟨v, h, a⟩ true := by
   unfold accessHook
-  rw [setting_congr (·.allow) cfg ⟨u, h, a⟩ ⟨v, h, a⟩ (fun b hb _ => holds_caseBlind _ (hcb b hb) u v h a huv),
-      setting_congr (·.deny) cfg ⟨u, h, a⟩ ⟨v, h, a⟩ (fun b hb _ => holds_caseBlind _ (hcb b hb) u v h a huv)]
+  rw [setting_congr (·.allow) cfg ⟨u, h, a⟩ ⟨v, h, a⟩
+        (fun b hb hs => holds_caseBlind _ (hcb b hb (Or.inl hs)) u v h a huv),
+      setting_congr (·.deny) cfg ⟨u, h, a⟩ ⟨v, h, a⟩
+        (fun b hb hs => holds_caseBlind _ (hcb b hb (Or.inr hs)) u v h a huv)]
   exact accessCheck_casefold _ _ u v huv
 
 /-! ### auth.require prefixes -/
@@ -452,6 +472,12 @@ theorem authRule_casefold (rules : List Bytes) (p q : Bytes) (h : p.map toLower 
 theorem authRule_append (rules : List Bytes) (p x : Bytes) (lc : Bool) (i : Nat)
     (h : authRule rules p lc = some i) : ∃ j, j ≤ i ∧ authRule rules (p ++ x) lc = some j :=
   findIdx?_mono _ _ rules (fun k _ hk => preMatch_append lc k p x hk) i h
+
+theorem authRule_lt (rules : List Bytes) (p : Bytes) (lc : Bool) (i : Nat)
+    (h : authRule rules p lc = some i) : i < rules.length := by
+  unfold authRule matchKeyPrefix at h
+  rw [List.findIdx?_eq_some_iff_getElem] at h
+  exact h.1
 
 end LtVerif.Access
 
@@ -499,5 +525,176 @@ theorem reCaselessSuffix_fold (lit u v : Bytes) (h : u.map toLower = v.map toLow
     reCaselessSuffix lit u = reCaselessSuffix lit v := by
   unfold reCaselessSuffix
   rw [← validUtf8_fold u, ← validUtf8_fold v, h, sufMatch_casefold lit u v h]
+
+end LtVerif.Access
+
+namespace LtVerif.Access
+open LtVerif B
+
+/-! ### `$HTTP["host"] ==`: names match with or without a port -/
+
+theorem hostEq_unfold (s l : Bytes) :
+    hostEq s l = if s.head? ≠ some slash ∧ l ≠ [] ∧ l.length ≠ s.length then Cond.hostPort l s else l == s := by
+  simp [hostEq, Cond.eqLike, Cond.attr]
+
+theorem getD_ne_of_not_mem (l : Bytes) (k : Nat) (x : UInt8) (hx : x ≠ 0) (h : x ∉ l) : l.getD k 0 ≠ x := by
+  induction l generalizing k with
+  | nil => simpa using hx.symm
+  | cons a t ih =>
+    cases k with
+    | zero => simp only [List.getD_cons_zero]; intro e; exact h (by simp [e])
+    | succ k => simp only [List.getD_cons_succ]; exact ih k (fun hm => h (by simp [hm]))
+
+theorem colon_ne_zero : colon ≠ 0 := by decide
+
+theorem getD_colon_iff (n port : Bytes) (k : Nat) (hn : colon ∉ n) (hp : colon ∉ port) :
+    (n ++ colon :: port).getD k 0 = colon ↔ k = n.length := by
+  induction n generalizing k with
+  | nil =>
+    cases k with
+    | zero => simp
+    | succ k =>
+      simp only [List.nil_append, List.getD_cons_succ, List.length_nil]
+      constructor
+      · intro e; exact absurd e (getD_ne_of_not_mem port k colon colon_ne_zero hp)
+      · intro e; omega
+  | cons a t ih =>
+    cases k with
+    | zero =>
+      simp only [List.cons_append, List.getD_cons_zero, List.length_cons]
+      constructor
+      · intro e; exact absurd (by simp [e]) hn
+      · intro e; omega
+    | succ k =>
+      simp only [List.cons_append, List.getD_cons_succ, List.length_cons]
+      rw [ih k (fun hm => hn (by simp [hm]))]
+      omega
+
+/-- against a configured name without port, an authority without port matches iff it is that name -/
+theorem hostEq_plain (s n : Bytes) (hs : colon ∉ s) (hn : colon ∉ n) :
+    hostEq s n = (n == s) := by
+  rw [hostEq_unfold]
+  split
+  · rename_i h
+    obtain ⟨_, _, hlen⟩ := h
+    have hne : (n == s) = false := by
+      rw [beq_eq_false_iff_ne]; intro e; exact hlen (by rw [e])
+    rw [hne]
+    unfold Cond.hostPort
+    split
+    · have := getD_ne_of_not_mem n s.length colon colon_ne_zero hn
+      simp only [List.getD_eq_getElem?_getD] at this
+      simp [this]
+    · have := getD_ne_of_not_mem s n.length colon colon_ne_zero hs
+      simp only [List.getD_eq_getElem?_getD] at this
+      simp [this]
+  · rfl
+
+/-- … and an authority `name:port` (port of at most five characters) matches iff `name` is that
+    name: the port-tolerant comparison (`llen - dlen <= 6`) -/
+theorem hostEq_port (s n port : Bytes) (hs : colon ∉ s) (hn : colon ∉ n) (hp : colon ∉ port)
+    (hsl : s.head? ≠ some slash) (hlen : port.length ≤ 5) :
+    hostEq s (n ++ colon :: port) = (n == s) := by
+  rw [hostEq_unfold]
+  have hl : (n ++ colon :: port).length = n.length + 1 + port.length := by simp; omega
+  have hmem : colon ∈ n ++ colon :: port := by simp
+  by_cases hsn : s.length = n.length
+  · -- same length as the name part: the byte after it is ':' and at most 6 bytes follow
+    have hc : s.head? ≠ some slash ∧ n ++ colon :: port ≠ [] ∧ (n ++ colon :: port).length ≠ s.length :=
+      ⟨hsl, by simp, by omega⟩
+    rw [if_pos hc]
+    unfold Cond.hostPort
+    have hgt : (n ++ colon :: port).length > s.length := by omega
+    rw [if_pos hgt]
+    have h1 : (n ++ colon :: port).getD s.length 0 = colon := (getD_colon_iff n port _ hn hp).2 hsn
+    have h2 : (n ++ colon :: port).take s.length = n := by rw [hsn]; simp
+    simp only [h1, h2, beq_self_eq_true, Bool.true_and]
+    have h3 : (n ++ colon :: port).length - s.length ≤ 6 := by omega
+    simp only [h3, decide_true, Bool.true_and]
+  · have hne : (n == s) = false := by
+      rw [beq_eq_false_iff_ne]; intro e; exact hsn (by rw [e])
+    rw [hne]
+    split
+    · unfold Cond.hostPort
+      split
+      · have : (n ++ colon :: port).getD s.length 0 ≠ colon := by
+          intro e; exact hsn ((getD_colon_iff n port _ hn hp).1 e)
+        simp only [beq_eq_false_iff_ne.2 this, Bool.false_and]
+      · have := getD_ne_of_not_mem s (n ++ colon :: port).length colon colon_ne_zero hs
+        simp only [beq_eq_false_iff_ne.2 this, Bool.false_and]
+    · rw [beq_eq_false_iff_ne]
+      intro e
+      exact hs (e ▸ hmem)
+
+/-- conditions that cannot tell `name` from `name:port` evaluate alike on both -/
+theorem holds_portBlind (sc : Scope) (hb : sc.portBlind) (u n port : Bytes) (a : Addr)
+    (hn : colon ∉ n) (hp : colon ∉ port) (hlen : port.length ≤ 5) :
+    sc.holds ⟨u, n ++ colon :: port, a⟩ = sc.holds ⟨u, n, a⟩ := by
+  induction sc with
+  | global => rfl
+  | url op s => rfl
+  | urlRe neg m => rfl
+  | host op s =>
+    cases op with
+    | eq =>
+      simp only [Scope.portBlind] at hb
+      simp only [Scope.holds, hostEq_port s n port hb.1 hn hp hb.2 hlen, hostEq_plain s n hb.1 hn]
+    | ne =>
+      simp only [Scope.portBlind] at hb
+      simp only [Scope.holds, hostEq_port s n port hb.1 hn hp hb.2 hlen, hostEq_plain s n hb.1 hn]
+    | prefix_ => exact absurd hb (by simp [Scope.portBlind])
+    | suffix => exact absurd hb (by simp [Scope.portBlind])
+  | hostRe neg m =>
+    simp only [Scope.portBlind] at hb
+    simp [Scope.holds, hb n port hn hp hlen]
+  | ip neg net bits => rfl
+  | ipRe neg m => rfl
+  | both x y ihx ihy =>
+    simp only [Scope.portBlind] at hb
+    simp [Scope.holds, ihx hb.1, ihy hb.2]
+  | non x ih =>
+    simp only [Scope.portBlind] at hb
+    simp [Scope.holds, ih hb]
+
+/-- the whole response depends on the authority only through the conditions of the configuration -/
+theorem serve_host_congr (bf : Bool) (parse : Bytes → Option SockAddr) (s : Server) (r : Req) (h' : Bytes)
+    (hh : ∀ b ∈ s.cfg, ∀ u a, b.scope.holds ⟨u, h', a⟩ = b.scope.holds ⟨u, r.host, a⟩) :
+    serve bf parse s { r with host := h' } = serve bf parse s r := by
+  have hset : ∀ {α : Type} (sel : Block → Option α) (u : Bytes) (a : Addr),
+      setting sel s.cfg ⟨u, h', a⟩ = setting sel s.cfg ⟨u, r.host, a⟩ :=
+    fun sel u a => setting_congr sel s.cfg _ _ (fun b hb _ => hh b hb u a)
+  unfold serve effAddr extConf
+  simp only [hset]
+  split
+  · rfl
+  · split
+    · rfl
+    · unfold serveFrom accessHook authPass authHook authRules
+      simp only [hset]
+
+end LtVerif.Access
+
+namespace LtVerif.Access
+open LtVerif B
+
+/-! ### mod_simple_vhost cuts the authority at the first ':' -/
+
+theorem hostPart_port (n port : Bytes) (hn : colon ∉ n) : hostPart (n ++ colon :: port) = n := by
+  unfold hostPart
+  induction n with
+  | nil => simp
+  | cons a t ih =>
+    have ha : a ≠ colon := fun e => hn (by simp [e])
+    simp only [List.cons_append, List.takeWhile_cons, ha, ne_eq, not_false_eq_true, decide_true, ↓reduceIte]
+    rw [ih (fun hm => hn (by simp [hm]))]
+
+theorem hostPart_plain (n : Bytes) (hn : colon ∉ n) : hostPart n = n := by
+  unfold hostPart
+  induction n with
+  | nil => rfl
+  | cons a t ih =>
+    have ha : a ≠ colon := fun e => hn (by simp [e])
+    simp only [List.takeWhile_cons, ha, ne_eq, not_false_eq_true, decide_true, ↓reduceIte]
+    rw [ih (fun hm => hn (by simp [hm]))]
 
 end LtVerif.Access
